@@ -109,8 +109,9 @@ def _c18(tier):
 
 
 def _c20(tier):
+    from . import oracles
     return [
-        dict(name='swarm', leg='swarm', units=U(tier, 700), opts=dict(per_unit=8, oracles=['C20'], profile=P(
+        dict(name='swarm', leg='swarm', units=U(tier, 700), opts=dict(per_unit=8, oracles=['C20'], post=oracles.c20_field_fault_post, profile=P(
             p_diag=0.5, p_restarts=0.6, p_growing=0.02, maxfun_choices=BUDGETS_MIX, p_buggify=0.7, p_nanregion=0.2))),
         dict(name='faulted', leg='swarm', units=U(tier, 400), opts=dict(per_unit=8, oracles=['C20'], salt='faulted', profile=P(
             p_diag=0.5, p_restarts=0.6, p_growing=0.0, p_faults=1.0, allow_raise=False, maxfun_choices=BUDGETS_BIG))),
